@@ -487,6 +487,13 @@ def b_c16(tier):
                     same("refused write_rows")
                 df.write_cell(cell(types[0], 40, 0), position=(1, 0)); model[1][0] = cell(types[0], 40, 0); same("write_cell by position")
                 check(df.read_cell(position=(1, 0)) == model[1][0], "read_cell by position differs", expected=model[1][0])
+                # a new column through the SAME handle whose shape was read before
+                shp0 = tuple(df.df_shape); extra = [float(r) for r in range(len(model))]
+                df.append_column(extra, "extra%d" % k, float)
+                check(tuple(df.df_shape) == (shp0[0], shp0[1] + 1) and list(df.column_names) == names + ["extra%d" % k] and
+                      [float(x) for x in df.read_columns(name=["extra%d" % k])] == extra,
+                      "after append_column the same handle does not show the new column", shape_before=shp0, shape_after=tuple(df.df_shape),
+                      names=list(df.column_names))
             try:
                 b.create_data_frame("dup%d" % k, "t", col_names=names + [names[0]], col_dtypes=types + [types[0]])
                 check(False, "a duplicate column name was accepted (names+dtypes)")
@@ -499,8 +506,17 @@ def b_c16(tier):
                 except nixio.exceptions.DuplicateColumnName:
                     N[0] += 1
                 check("dupd%d" % k not in b.data_frames, "a refused create_data_frame left a frame behind")
+    # names + data with small element types: the column types are those of the data that was written
+    small = [(np.int8(1), np.uint8(200), np.int16(-300), np.float32(0.5), "a"), (np.int8(-2), np.uint8(7), np.int16(9), np.float32(1.5), "b")]
+    dfs = b.create_data_frame("small", "t", col_names=["i8", "u8", "i16", "f32", "s"], data=small)
+    got = dfs.read_rows([0, 1])
+    want_dt = [np.dtype(np.int8), np.dtype(np.uint8), np.dtype(np.int16), np.dtype(np.float32)]
+    got_dt = [np.asarray(got[nm]).dtype if hasattr(got, "dtype") and got.dtype.names else None for nm in ("i8", "u8", "i16", "f32")]
+    check(got_dt == want_dt, "a frame created from names + data does not keep the element types of the data", got=[str(x) for x in got_dt],
+          expected=[str(x) for x in want_dt])
+    check([tuple(r)[:4] for r in got] == [tuple(r)[:4] for r in small], "a frame created from small-typed data does not read back equal")
     f.close()
-    return "%d schemas x row counts {0,1,3} x creation variants {col_dict, names+dtypes, names+data}; append rows, overwrite every column by index and by name, first/last row, one cell; wrong lengths, out-of-range row, duplicate column names" % len(schemas)
+    return "%d schemas x row counts {0,1,3} x creation variants {col_dict, names+dtypes, names+data}; append rows, overwrite every column by index and by name, first/last row, one cell; wrong lengths, out-of-range row, duplicate column names; a column appended through a handle whose shape was read; small element types from names + data" % len(schemas)
 
 
 # ------------------------------------------------------------------------------------------------------------------
@@ -754,6 +770,10 @@ def b_c12(tier):
     import nixio
     f = sample_file(newfile()); b = f.blocks[0]; a = b.data_arrays["same"]; sec = f.sections["sess"]
     rd = a.dimensions[1]; t = b.tags["tag"]; g = b.groups["grp"]; other = f.blocks[1]
+    # dimensions that are ALREADY linked (a refused re-link must keep the old link)
+    src1 = b.create_data_array("ticksrc", "t", data=np.array([0.5, 1.5, 2.5])); src1.append_set_dimension()
+    lin = b.create_data_array("lin", "t", data=np.array([1.0, 2.0, 3.0])); lrd = lin.append_range_dimension(ticks=[0.0, 1.0, 2.0])
+    lrd.link_data_array(src1, [-1]); lsd = b.data_arrays["ints"].dimensions[0]; lsd.link_data_array(b.data_arrays["text"], [-1])
     calls = [
         ("create_block dup", lambda: f.create_block("blk0", "t")), ("create_block bad name", lambda: f.create_block("a/b", "t")),
         ("create_block empty type", lambda: f.create_block("fresh", "")), ("create_section dup", lambda: f.create_section("sess", "t")),
@@ -782,6 +802,13 @@ def b_c12(tier):
         ("sources append foreign", lambda: a.sources.append(other.sources["src"])),
         ("link invalid index", lambda: rd.link_data_array(b.data_arrays["pos"], [0, 0])),
         ("link wrong rank", lambda: rd.link_data_array(b.data_arrays["pos"], [-1])),
+        ("re-link range no -1", lambda: lrd.link_data_array(b.data_arrays["pos"], [0, 0])),
+        ("re-link range two -1", lambda: lrd.link_data_array(b.data_arrays["pos"], [-1, -1])),
+        ("re-link range wrong rank", lambda: lrd.link_data_array(b.data_arrays["pos"], [-1])),
+        ("re-link set no -1", lambda: lsd.link_data_array(b.data_arrays["pos"], [0, 0])),
+        ("re-link set negative entry", lambda: lsd.link_data_array(b.data_arrays["pos"], [-2, 0])),
+        ("re-link set two -1", lambda: lsd.link_data_array(b.data_arrays["pos"], [-1, -1])),
+        ("re-link set wrong rank", lambda: lsd.link_data_array(b.data_arrays["pos"], [-1, 0, 0])),
         ("container index out of range", lambda: b.data_arrays[99]), ("delete missing", lambda: b.data_arrays.__delitem__("nope")),
         ("delete wrong kind", lambda: b.data_arrays.__delitem__(t)),
         ("force_created_at wrong type", lambda: a.force_created_at("x")), ("feature foreign data", lambda: setattr(t.features[0], "data", other.data_arrays["ints"])),
